@@ -31,6 +31,17 @@ def cases(draw, mode, nums=("frac",), tmax=2):
             "badtimes": draw(st.sampled_from([0, -1, "1.5", "a"]))}
 
 
+@st.composite
+def special_cases(draw):
+    """Rational curves on an elevated space whose weights alone (or numerator alone) are reducible."""
+    Ulow, plow = draw(gen.knotvectors(0, 2, 2))
+    t = draw(st.integers(1, 2))
+    Uhigh = oracle.elevated_vector(Ulow, plow, t)
+    c, kind = draw(gen.special_rational(Ulow, plow, Uhigh, plow + t))
+    return {"curve": c, "t": t, "mode": "generic", "via": "method", "special": kind,
+            "tolerance": draw(st.sampled_from(["default", "default", "none"])), "badtimes": 0}
+
+
 def classify(ref, t, out):
     bk = oracle.breaks(ref.U)[1:-1]
     mults = {oracle.mult(ref.U, z) for z in bk}
@@ -175,6 +186,9 @@ def check_generic(case, out):
     else:
         representable = feasible and oracle.represent_rational(ref, newU, newp) is not None
     out.cls("representable" if representable else "not-representable", "feasible" if feasible else "knot-mult<t")
+    if case.get("special"):
+        out.cls("special=" + case["special"])
+        klass = kind + ";" + case["special"]
     curve = lib.build_curve(c)
     snap = lib.snapshot(curve)
     tol = case["tolerance"]
@@ -247,4 +261,6 @@ FACETS = [
           thorough=4000, rule="reduction of reference-elevated states must restore them"),
     Facet("reduce-generic", lambda tier: cases("generic", ("frac",), 2), check_generic, quick=240, thorough=4000,
           rule="reduction of generic states: refuse+unchanged, or tolerance=None keeps knot values"),
+    Facet("reduce-rational-special", lambda tier: special_cases(), check_generic, quick=160, thorough=2500,
+          rule="rational curves whose weight function alone / numerator alone / constant weights are reducible"),
 ]
